@@ -58,7 +58,7 @@ class Fn:
     """one function to translate: where it is, how its parameters are typed"""
 
     def __init__(self, qualname, params=None, ret=None, self_attrs=None, enum_attrs=None, fuel=None, lean_name=None,
-                 err=None, consts=None):
+                 err=None, consts=None, fn_params=None, const_calls=None, opaque_fns=None):
         self.qualname = qualname                  # "Class.method" or "function"
         self.params = params or {}                # python parameter name -> "Int" | "Rat" | "Bool" (overrides annotations)
         self.ret = ret                            # Lean return type, e.g. "Int", "Rat", "Int × Int"
@@ -68,6 +68,9 @@ class Fn:
         self.lean_name = lean_name or qualname.replace(".", "_").replace("__", "_").lstrip("_")
         self.err = err                            # Lean term returned where the Python code raises (None: raise is untranslatable)
         self.consts = consts or {}                # module-level / class-level constant names -> (Lean term, type)
+        self.fn_params = fn_params or {}          # python callable name (e.g. "np.exp") -> Lean parameter name of type Rat → Rat
+        self.const_calls = const_calls or {}      # normalised text of a call expression -> (Lean parameter name, type)
+        self.opaque_fns = opaque_fns or {}        # python callable (e.g. "self._theta") -> (Lean parameter name, [arg types], ret type)
 
 
 class Unit:
@@ -144,6 +147,14 @@ class _Tr(ast.NodeVisitor):
                 return self.fn.consts[e.id]
             self.bad(e, f"free name {e.id}")
         if isinstance(e, ast.Attribute):
+            dotted = _dotted(e)
+            if dotted and dotted in self.fn.consts:
+                return self.fn.consts[dotted]
+            if dotted and dotted.startswith("self.") and dotted[5:] in self.fn.self_attrs and "." in dotted[5:]:
+                ty = self.fn.self_attrs[dotted[5:]]
+                nm = "self_" + dotted[5:].replace("._", "_").replace(".", "_").lstrip("_")
+                self.add_param(nm, ty)
+                return nm, ty
             if isinstance(e.value, ast.Name) and e.value.id == "self":
                 if e.attr in self.fn.self_attrs:
                     ty = self.fn.self_attrs[e.attr]
@@ -232,9 +243,30 @@ class _Tr(ast.NodeVisitor):
         return f"{out}.1" if i < n - 1 else out
 
     def call(self, e: ast.Call):
+        key = _norm_call(e)
+        if key in self.fn.const_calls:
+            nm, ty = self.fn.const_calls[key]
+            self.add_param(nm, ty)
+            return nm, ty
         if e.keywords:
             self.bad(e, "keyword arguments")
         f = e.func
+        fdot = _dotted(f)
+        if fdot in self.fn.fn_params and len(e.args) == 1:
+            nm = self.fn.fn_params[fdot]
+            self.add_param(nm, "Rat → Rat")
+            s, t = self.expr(e.args[0])
+            return f"({nm} {self.coerce(s, t, RAT) if t != NUM else '(' + s + ' : Rat)'})", RAT
+        if fdot in self.fn.opaque_fns:
+            nm, atys, rty = self.fn.opaque_fns[fdot]
+            if len(e.args) != len(atys):
+                self.bad(e, f"call of {fdot} with {len(e.args)} arguments")
+            self.add_param(nm, " → ".join(list(atys) + [rty]))
+            parts = []
+            for a, want in zip(e.args, atys):
+                s, t = self.expr(a)
+                parts.append(self.coerce(s, t, want) if t != NUM else f"({s} : {want})")
+            return "(" + " ".join([nm] + parts) + ")", rty
         name = None
         if isinstance(f, ast.Name):
             name = f.id
@@ -449,6 +481,27 @@ class _Tr(ast.NodeVisitor):
         return v
 
 
+def _dotted(e):
+    """'a.b.c' for a chain of attribute accesses on a name, else None"""
+    parts = []
+    while isinstance(e, ast.Attribute):
+        parts.append(e.attr)
+        e = e.value
+    if isinstance(e, ast.Name):
+        parts.append(e.id)
+        return ".".join(reversed(parts))
+    return None
+
+
+def _norm_call(e: ast.Call) -> str:
+    """normalised text of a call: `self.nu.integrate_against_x(-1, +1)` -> 'self.nu.integrate_against_x(-1, 1)'"""
+    try:
+        txt = ast.unparse(e)
+    except Exception:
+        return ""
+    return txt.replace("+", "").replace(" ", "").replace("numpy.", "np.")
+
+
 def _find(tree: ast.Module, qualname: str):
     parts = qualname.split(".")
     body, cls = tree.body, None
@@ -506,7 +559,8 @@ def _signature(unit: Unit, fn: Fn):
         body = tr.block(node.body, [])
     finally:
         fn.ret = saved_ret
-    order = ["self_" + a.lstrip("_") for a in fn.self_attrs]
+    order = ["self_" + a.replace("._", "_").replace(".", "_").lstrip("_") for a in fn.self_attrs] \
+        + [nm for nm, _ in fn.const_calls.values()] + [nm for nm, _, _ in fn.opaque_fns.values()] + list(fn.fn_params.values())
     sig["extra"] = sorted(tr.extra_params, key=lambda nt: (order.index(nt[0]) if nt[0] in order else len(order), nt[0]))
     sig["body"] = body
     sig["recursive"] = tr.recursive
